@@ -1,0 +1,27 @@
+// Verification hooks (compiled only with `--cfg hotstuff_verif`): re-exports of private types
+// and a `SystemTime` shim running on the tokio clock.
+pub use crate::batch_maker::{Batch, Transaction};
+pub use crate::mempool::MempoolMessage;
+
+/// Same call shape as `std::time::{SystemTime, UNIX_EPOCH}`, but on the (pausable) tokio clock.
+pub struct SystemTime(std::time::Duration);
+pub struct UnixEpoch;
+pub const UNIX_EPOCH: UnixEpoch = UnixEpoch;
+
+impl SystemTime {
+    pub fn now() -> Self {
+        static ANCHOR: std::sync::OnceLock<std::time::Instant> = std::sync::OnceLock::new();
+        let anchor = *ANCHOR.get_or_init(std::time::Instant::now);
+        let now = tokio::time::Instant::now().into_std();
+        let base = std::time::Duration::from_secs(1_000_000_000);
+        Self(if now >= anchor {
+            base + (now - anchor)
+        } else {
+            base - (anchor - now)
+        })
+    }
+
+    pub fn duration_since(&self, _epoch: UnixEpoch) -> Result<std::time::Duration, std::convert::Infallible> {
+        Ok(self.0)
+    }
+}
